@@ -15,6 +15,8 @@ for t in $drivers; do lake build $t || { echo "setup: driver $t failed"; rc=1; }
 lake build $mods || { echo "setup: some property modules failed; building them one by one"; for m in $mods; do lake build $m >/dev/null 2>&1 || echo "setup: FAILED $m"; done; rc=1; }
 cd ../harness
 cargo build --profile verif || { echo "setup: harness build failed"; rc=1; }
+# the same harness in the plain release profile (checked-vs-release differential; never fatal)
+cargo build --release || echo "setup: release-profile harness did not build (the release pass will be skipped)"
 # compile-fail probes of the static guards (tools/guard_probes.py); warms their target dir, never fatal
 cd ..
 python3 tools/guard_probes.py ans range chain cat quant | tail -1 || true
